@@ -139,6 +139,14 @@ def run_case(case):
             q = terms[tn].fn(mid)
         got = q.compute() if hasattr(q, "compute") else q
     except Exception as ex:  # noqa: BLE001
+        # a boundary can only be transparent where there is something to materialise: when the collection at the cut
+        # point cannot be planned and computed on its own either (e.g. sort_values by the index name over several
+        # partitions raises KeyError in SortValues._lower — the uncut `len` succeeds only because Len skips the sort), the failure is not an effect of the boundary
+        try:
+            prefix = ops[h].fn(env["L"]) if cutpos == 1 else ops[t].fn(ops[h].fn(env["L"]))
+            e2e.compute_partitions(prefix)  # partition by partition: compute() would plan a one-partition variant
+        except Exception:  # noqa: BLE001
+            return None
         return f"cut query raised {type(ex).__name__}: {str(ex)[:160]}"
     unordered = ops[h].unordered or ops[t].unordered or terms[tn].unordered
     noindex = ops[h].noindex or ops[t].noindex or terms[tn].noindex
